@@ -727,3 +727,71 @@ Section Expand.
     rewrite <- !app_assoc. reflexivity.
   Qed.
 End Expand.
+
+(* ------------------------------------------------------------------ *)
+(* any two complete schedules give every file the same outcome          *)
+(* ------------------------------------------------------------------ *)
+From Coq Require Import Sorted.
+
+Lemma insert_sorted_sorted x l : Sorted le l -> Sorted le (insert_sorted x l).
+Proof.
+  induction l as [|y l IH]; intros Hs; cbn [insert_sorted]; [repeat constructor|].
+  destruct (Nat.leb_spec x y) as [Hxy|Hxy].
+  - constructor; [exact Hs|constructor; exact Hxy].
+  - inversion Hs as [|? ? Hs' Hhd]; subst. constructor; [apply IH; exact Hs'|].
+    destruct l as [|z l]; cbn [insert_sorted]; [constructor; lia|].
+    destruct (Nat.leb_spec x z); constructor; try lia. inversion Hhd; subst. assumption.
+Qed.
+
+Lemma sort_nat_sorted l : Sorted le (sort_nat l).
+Proof. induction l as [|x l IH]; [constructor|]. cbn [sort_nat fold_right]. now apply insert_sorted_sorted. Qed.
+
+Lemma sorted_perm_eq : forall a b : list nat, Sorted le a -> Sorted le b -> Permutation a b -> a = b.
+Proof.
+  induction a as [|x a IH]; intros b Ha Hb Hp.
+  - apply Permutation_nil in Hp. now subst.
+  - destruct b as [|y b]; [apply Permutation_sym, Permutation_nil in Hp; discriminate|].
+    assert (StronglySorted le (x :: a)) as Sa by (apply Sorted_StronglySorted; [intros ? ? ?; lia|exact Ha]).
+    assert (StronglySorted le (y :: b)) as Sb by (apply Sorted_StronglySorted; [intros ? ? ?; lia|exact Hb]).
+    inversion Sa as [|? ? Sa' Fa]; subst. inversion Sb as [|? ? Sb' Fb]; subst.
+    assert (x = y) as ->.
+    { assert (In x (y :: b)) as Hx by (eapply Permutation_in; [exact Hp|now left]).
+      assert (In y (x :: a)) as Hy by (eapply Permutation_in; [apply Permutation_sym; exact Hp|now left]).
+      rewrite Forall_forall in Fa, Fb.
+      destruct Hx as [->|Hx]; [reflexivity|]. destruct Hy as [->|Hy]; [reflexivity|].
+      specialize (Fa _ Hy). specialize (Fb _ Hx). lia. }
+    f_equal. apply IH.
+    + now inversion Ha.
+    + now inversion Hb.
+    + eapply Permutation_cons_inv; exact Hp.
+Qed.
+
+Lemma sort_nat_perm_eq a b : Permutation a b -> sort_nat a = sort_nat b.
+Proof.
+  intros Hp. apply sorted_perm_eq; try apply sort_nat_sorted.
+  eapply Permutation_trans; [apply sort_nat_perm|]. eapply Permutation_trans; [exact Hp|apply Permutation_sym, sort_nat_perm].
+Qed.
+
+Theorem parblock_two_schedules_same_outcome W1 Q1 W2 Q2 ops s1 s2 :
+  reachable W1 Q1 ops s1 -> final s1 = true -> reachable W2 Q2 ops s2 -> final s2 = true ->
+  forall h, norm_phase (phase_of h (b_ev s1)) = norm_phase (phase_of h (b_ev s2)).
+Proof.
+  intros H1 F1 H2 F2 h.
+  destruct (parblock_any_schedule W1 Q1 ops s1 H1 F1) as [A1 B1].
+  destruct (parblock_any_schedule W2 Q2 ops s2 H2 F2) as [A2 B2].
+  destruct (nth_error ops h) as [o|] eqn:En.
+  - specialize (A1 h o En). specialize (A2 h o En).
+    destruct o as [js|]; destruct (phase_of h (b_ev s1)); try contradiction; destruct (phase_of h (b_ev s2)); try contradiction;
+      cbn [norm_phase outcome_ok] in *; [|reflexivity].
+    f_equal. apply sort_nat_perm_eq. eapply Permutation_trans; [exact A1|apply Permutation_sym; exact A2].
+  - now rewrite (B1 h En), (B2 h En).
+Qed.
+
+Theorem drivers_same_outcome W Q W' ops sb sf :
+  reachable W Q ops sb -> final sb = true -> freachable W' ops sf -> ffinal sf = true ->
+  forall h, norm_phase (phase_of h (b_ev sb)) = norm_phase (phase_of h (f_ev sf)).
+Proof.
+  intros Hb Fb Hf Ff h. pose proof (drivers_agree W Q W' ops sb sf Hb Fb Hf Ff h) as H.
+  destruct (phase_of h (b_ev sb)), (phase_of h (f_ev sf)); cbn [same_outcome norm_phase] in *; try contradiction; try reflexivity.
+  f_equal. now apply sort_nat_perm_eq.
+Qed.
